@@ -254,7 +254,7 @@ class Ctx:
     def note_case(self, key, nontrivial=True):
         self.evaluations += 1
         if nontrivial:
-            self.nontrivial.add(key if isinstance(key, (str, int, tuple)) else repr(key))
+            self.nontrivial.add(repr(key))
 
     # -- results
     def add_broken(self, kind, name, detail):
